@@ -95,15 +95,17 @@ def classify(ctx: HandlerContext) -> Classification:
     if other:
         return Classification("ask", description=f"{base} {other}")
 
+    operation = _detect_operation(tokens)
+
+    # --to-command replaces writing files only when extracting; tar -c still writes its archive
     to_commands = [c for c in _extract_to_commands(tokens) if c]
-    if to_commands:
+    if to_commands and operation == "extract":
         return Classification(
             "delegate",
             inner_command="\n".join(to_commands),
             description=f"{base} --to-command",
         )
 
-    operation = _detect_operation(tokens)
     if operation == "list":
         return Classification("allow", description=f"{base} list")
     if operation:
